@@ -145,8 +145,51 @@ def switched_off_grid():
                            cassette="memory", lookup=True, lookup_variants=True, stream="switched-off-in-flight")
 
 
+RESERVED = "_tape_recorder_operation"       # TapeRecorder.OPERATION_OUTPUT_ALIAS; TapeRecorder.OPERATION_CLASS = RESERVED + "_class"
+
+
+def reserved_text_grid():
+    """deterministic core, implementation only (the theorem's hypothesis sites_ok keeps these texts out of the model): the
+    recorder's reserved text turns up in what an operation captures WITHOUT being the operation's output entry - an
+    intercepted input called with the public constant TapeRecorder.OPERATION_CLASS as (keyword) argument (argument values
+    are part of input keys), an input whose alias carries the text, a record_data key with that prefix, an intercepted output
+    sent with that text - and then the operation returns / raises / is interrupted, right away or after one more capture"""
+    term = {"return": {"k": "ret", "e": {"lit": pv.i(1)}}, "raise": {"k": "raise", "ty": "ValueError"},
+            "interrupt": {"k": "interrupt"}}
+    out_cfg = dict(alias="send", static=True, handler="none", fail=True, default=pv.none())
+
+    def in_cfg(alias):
+        return dict(alias=alias, resolver={"kind": "none"}, cap=None, static=True, property=False, handler="none",
+                    prep_discards=False, run_missing=False, vmiss={"kind": "none"}, fallbacks={"kind": "none"})
+    ret = {"k": "ret", "e": {"lit": pv.s("value")}}
+    carriers = {
+        "input-argument": dict(k="in", cfg=in_cfg("get_meta"), body=ret, args=[{"lit": pv.s(RESERVED + "_class")}], kwargs=[]),
+        "input-keyword-argument": dict(k="in", cfg=in_cfg("get_meta"), body=ret, args=[], kwargs=[["field", {"lit": pv.s(RESERVED + "_class")}]]),
+        "input-alias": dict(k="in", cfg=in_cfg("read " + RESERVED + "_class"), body=ret, args=[{"lit": pv.i(1)}], kwargs=[]),
+        "data-key": dict(k="recdata", key=RESERVED + "_note", e={"lit": pv.i(7)}),
+        "data-key-exact-prefix": dict(k="recdata", key=RESERVED + " #1.output", e={"lit": pv.i(7)}),
+        "output-argument": dict(k="out", cfg=dict(out_cfg), body={"k": "ret", "e": {"lit": pv.none()}},
+                                args=[{"lit": pv.s("output: " + RESERVED + " #1.output")}], kwargs=[]),
+    }
+    k = 0
+    for name in sorted(carriers):
+        for how in ("return", "raise", "interrupt"):
+            for more in (False, True):
+                k += 1
+                tail = rd.clean(term[how])
+                if more:
+                    tail = dict(k="out", cfg=dict(out_cfg), body={"k": "ret", "e": {"lit": pv.none()}},
+                                args=[{"lit": pv.s("x")}], kwargs=[], next=tail)
+                body = dict(rd.clean(carriers[name]), next=tail)
+                mk = lambda b, cls: dict(kind="record", enabled=True, prm=dict(PLAIN_PRM), save_fails=False,    # noqa: E731
+                                         op=dict(cls=cls, classlevel=False, extractor={"kind": "none"}, body=b))
+                yield dict(interrupt_kind=INTERRUPT_KINDS[k % 4], draws=[], runs=[mk(body, "OpA"), mk(rd.clean(term[how]), "OpA"),
+                                                                                   mk(rd.clean(body), "OpB")],
+                           cassette="memory", lookup=True, lookup_variants=more, stream="reserved-text:" + name, impl_only=True)
+
+
 def generate(rng, tier):
-    cases = list(hierarchy_grid()) + list(extractor_shape_grid()) + list(switched_off_grid())
+    cases = list(hierarchy_grid()) + list(extractor_shape_grid()) + list(switched_off_grid()) + list(reserved_text_grid())
     # a recorded operation inside which other scopes of the recorder open and close (nested replay / nested operation call)
     cases += r2.nested_scope_cases()
     shape_rng = __import__("random").Random()
@@ -304,11 +347,11 @@ def features(case):      # noqa: F811
 
 # ---- round-7 case kinds are implementation only: the hooks of rec_common apply to history cases --------------------------------
 def to_gallina(case, obs):      # noqa: F811
-    return None if r2.is_rec2(case) else _rc.to_gallina(case, obs)
+    return None if r2.is_rec2(case) or case.get("impl_only") else _rc.to_gallina(case, obs)
 
 
 def explain(case, obs):      # noqa: F811
-    return "0%nat" if r2.is_rec2(case) else _rc.explain(case, obs)
+    return "0%nat" if r2.is_rec2(case) or case.get("impl_only") else _rc.explain(case, obs)
 
 
 def nontrivial(case):      # noqa: F811
